@@ -1,6 +1,6 @@
 (* Properties/C14.v — pinned statements only. *)
 From Boreal Require Import Base.Prelude Base.ListX Base.Bytes Model.Literals Model.AcScan Model.Limits
-  Spec.TextSpec Model.TextCase Proofs.LimitsProofs Proofs.TextMain.
+  Spec.TextSpec Model.TextCase Proofs.LimitsProofs Proofs.TextMain Proofs.LimitsRecord.
 
 (* limit: for every rule set, every region layout, every matcher kind (atom path and raw path), no
    string collects more than string_max_nb_matches matches *)
@@ -33,13 +33,40 @@ Theorem C14_record_fields :
     /\ sm_data x = ntake (N.min (sm_len x) (p_match_max_length prm)) (ndrop (sm_off x) (rg_mem rg)).
 Proof. exact built_on_fields. Qed.
 
-(* text strings on one contiguous input: positive length, inside the input, capped data
-   (consequence of C01: every record is a true occurrence of a non-empty encoding) *)
-Definition C14_record_statement : Prop :=
-  forall prm var regions x, In x (scan_var_fragmented prm var regions) ->
+(* the record statement in full — positive length, inside the fetched region whose base the match
+   carries, data = the first min(length, match_max_length) bytes found there.
+   `_partial`: proved for EVERY matcher under the span contract `matcher_spans_ok` (process_ac_match on a
+   confirmed in-region candidate and find_next_match_at return spans s < e <= |mem|); the contract is
+   proved below for text strings.  Missing: the contract for the Atomized validators and the raw
+   regex matcher (their models live in Model/Validator.v / Model/Raw.v with their own scan driver,
+   Proofs/ValidatorProofs.v `process_bound`; they are not instances of Model/AcScan.v's `matcher`
+   record yet). *)
+Theorem C14_record_partial :
+  forall prm var regions x, matcher_spans_ok var ->
+    In x (scan_var_fragmented prm var regions) ->
     exists r, In r regions /\ f_fail r = false /\ sm_base x = f_start r
       /\ 0 < sm_len x /\ sm_off x + sm_len x <= nlen (f_mem r)
       /\ sm_data x = slice (sm_off x) (sm_off x + N.min (sm_len x) (p_match_max_length prm)) (f_mem r).
+Proof. exact record_faithful_spans. Qed.
+
+(* text strings (MatcherKind::Literals), every well-formed declaration, direct and fragmented: no hypothesis left *)
+Theorem C14_record_text :
+  forall prm d regions x, wf_decl d = true ->
+    In x (scan_var_fragmented prm (text_matcher d) regions) ->
+    exists r, In r regions /\ f_fail r = false /\ sm_base x = f_start r
+      /\ 0 < sm_len x /\ sm_off x + sm_len x <= nlen (f_mem r)
+      /\ sm_data x = slice (sm_off x) (sm_off x + N.min (sm_len x) (p_match_max_length prm)) (f_mem r).
+Proof. exact record_faithful_text. Qed.
+
+Theorem C14_text_spans_ok : forall d, wf_decl d = true -> matcher_spans_ok (text_matcher d).
+Proof. exact text_spans_ok. Qed.
+
+(* the contract is satisfiable: a concrete xor wide declaration meets it *)
+Definition ex_span_d : tdecl :=
+  {| t_text := [97;98;99]; t_ascii := false; t_wide := true; t_nocase := false; t_fullword := true;
+     t_xor := Some (1, 200); t_b64 := None |}.
+Example C14_spans_example : matcher_spans_ok (text_matcher ex_span_d).
+Proof. exact (text_spans_ok ex_span_d eq_refl). Qed.
 
 (* prefix, raw path: over any sequence of regions the limited list is the first `lim` matches of the
    unlimited one (`big` = any bound the unlimited run does not reach) *)
@@ -72,4 +99,7 @@ Print Assumptions C14_limit_direct.
 Print Assumptions C14_raw_limit_pinned_refuted.
 Print Assumptions C14_record_built.
 Print Assumptions C14_record_fields.
+Print Assumptions C14_record_partial.
+Print Assumptions C14_record_text.
+Print Assumptions C14_text_spans_ok.
 Print Assumptions C14_prefix_raw.
